@@ -1117,3 +1117,7 @@ Definition cfg_wfb (cfg : config) : bool :=
   forallb (fun ir => (0 <=? r_ltv (snd ir)) && (0 <=? r_eltv (snd ir))) (c_rates cfg).
 Definition prices_okb (P : list (Z * Z)) : bool := forallb (fun ap => 0 <=? snd ap) P.
 Definition op_saneb (o : op) : bool := match o with OSetPrice _ (Some p) => 0 <=? p | _ => true end.
+
+(* AvailableToBorrow is an amount: never negative (ids 1 .. counter) *)
+Definition holds_C08_avail (st : state) : bool :=
+  forallb (fun i => match zget (lends st) i with Some l => 0 <=? l_avail l | None => true end) (zseq (nlends st)).
